@@ -122,11 +122,13 @@ def _capi_tok(t):
     t = re.sub(r'^(D .*) \S+$', r'\1 ?', t)
     return t
 def _capi_res(r):
-    """through C every failure is a return code of -1 plus a message whose wording is not part of the contract: errors of any
-    kind and calls on a poisoned rewriter are one class"""
+    """through C every failure is a return code of -1 plus a message.  The message is mapped to the error kind by
+    harness/src/capi.rs::classify (stopped / memory limit / ambiguity / use after a fatal error); the kind must be the
+    one the Rust configuration reports.  A message of no known kind (e.g. a stale error of an earlier call) stays distinct."""
     if r is None or r == 'ok' or r == 'use-after-end': return r
     if r.startswith('panic:construct') or r.startswith('new'): return r
-    return 'fail'
+    if r.startswith('err:other'): return 'fail-other'
+    return r
 def p_capi(case):
     out = []
     for c in case['calls']:
